@@ -1,0 +1,16 @@
+//go:build !verif
+
+// Verification hooks are compiled out unless the build tag "verif" is set.
+package kcp
+
+const verifEnabled = false
+
+func verifEv(kind string, obj any, a, b, c int64) {}
+
+func verifPoolGet(bp *bufferPool) []byte { return nil }
+
+func verifPoolPut(bp *bufferPool, buf []byte) error { return nil }
+
+func verifWorkerID() int64 { return 0 }
+
+func verifB(b bool) int64 { return 0 }
